@@ -198,6 +198,12 @@ def project_term(term, ctx: Ctx):
         base, exponent = (f.args if isinstance(f, Pow) else (f, 1))
         if isinstance(base, Mul):
             raise Unsupported(f"power of a product {f!r}")
+        if isinstance(base, (F, Fd)) and sympify(exponent).is_Integer and \
+                int(exponent) > 1:
+            # sympy's notation for adjacent identical operators
+            for _ in range(int(exponent)):
+                objs.append(project_base(base, 1, ctx))
+            continue
         objs.append(project_base(base, exponent, ctx))
     num, den, s2, s3 = _norm_pref(acc)
     # the non-commuting factors (in order) form ONE operator string object
